@@ -43,7 +43,7 @@ func c14Explore(t *testing.T, c *vcore.Ctx) {
 		c.HarnessError("initial cluster: %v", err)
 		return
 	}
-	c.SetRule("deployments {1 node x 1, 1 node x 2, 2 nodes x 1+1 (AUTO over the pod), EACH x 1} x {memory-only, bound 1.0} from pre-states {empty, one workload present}; for every recorded step k: crash before step k, then recovery in a fresh instance on the same store/engines/WAL file; " +
+	c.SetRule("deployments {1 node x 1, 1 node x 2, 2 nodes x 1+1 (AUTO over the pod), EACH x 1, AUTO x 3, FILL x 2, GLOBAL x 2; thorough also 3 bound instances on the NUMA node, EACH memory-only, two half-core instances, DRAINED x 3} x {memory-only, bound 1.0} from pre-states {empty, one workload present; thorough also a bound workload on each node}; for every recorded step k: crash before step k, then recovery in a fresh instance on the same store/engines/WAL file; " +
 		"non-trivial = distinct (pre-state, deployment, crash point) whose crash was delivered")
 	c.Assume("a crash stops all external effects atomically between two intercepted steps (no torn individual write; bbolt's own atomicity is trusted)")
 	c.Assume("recovery starts after the dead instance's lock sessions and leases have expired (all leases are revoked before the new instance starts)")
@@ -53,13 +53,18 @@ func c14Explore(t *testing.T, c *vcore.Ctx) {
 		{Kind: "create", Strategy: "AUTO", Count: 2, Req: "bind1", Include: []string{"n1"}},
 		{Kind: "create", Strategy: "AUTO", Count: 2, Req: "mem"},
 		{Kind: "create", Strategy: "EACH", Count: 1, Req: "bind1"},
+		{Kind: "create", Strategy: "AUTO", Count: 1, Req: "bind1", Include: []string{"n2"}},
+		{Kind: "create", Strategy: "AUTO", Count: 3, Req: "mem"},
+		{Kind: "create", Strategy: "FILL", Count: 2, Req: "mem"},
+		{Kind: "create", Strategy: "GLOBAL", Count: 2, Req: "bind1"},
 	}
 	if c.Thorough() {
+		pres = append(pres, []wOp{{Kind: "create", Strategy: "AUTO", Count: 1, Req: "bind1", Include: []string{"n1"}}, {Kind: "create", Strategy: "AUTO", Count: 1, Req: "bind1", Include: []string{"n2"}}})
 		ops = append(ops,
-			wOp{Kind: "create", Strategy: "AUTO", Count: 1, Req: "bind1", Include: []string{"n2"}},
-			wOp{Kind: "create", Strategy: "AUTO", Count: 3, Req: "mem"},
-			wOp{Kind: "create", Strategy: "FILL", Count: 2, Req: "mem"},
-			wOp{Kind: "create", Strategy: "GLOBAL", Count: 2, Req: "bind1"})
+			wOp{Kind: "create", Strategy: "AUTO", Count: 3, Req: "bind1", Include: []string{"n2"}},
+			wOp{Kind: "create", Strategy: "EACH", Count: 1, Req: "mem"},
+			wOp{Kind: "create", Strategy: "AUTO", Count: 2, Req: "bindhalf"},
+			wOp{Kind: "create", Strategy: "DRAINED", Count: 3, Req: "mem"})
 	}
 	c.Bound("deployments", len(ops))
 	prep := func(pre []wOp) (*world.Snap, *world.View) {
